@@ -169,7 +169,7 @@ static unsigned int check_sib_disp(struct instr *instruc, char scale,
 static int copy_index_reg(int j, const char *mem, char reg[]) {
 
   int k = 0;
-  while (((IN_RANGE(mem[j], 'a', 'x')) || (IN_RANGE(mem[j], '0', '9'))) &&
+  while (((IN_RANGE(mem[j], 'a', 'z')) || (IN_RANGE(mem[j], '0', '9'))) &&
          k < MAX_REG_STR_LEN)
     reg[k++] = mem[j++];
   return j;
@@ -224,7 +224,8 @@ char get_operand_type(const char *operand) {
     return 'y';
   if (operand[i] >= '0' && operand[i] <= '9')
     return 'i';
-  if (operand[i] >= '-')
+  // a negative number
+  if (operand[i] == '-' && operand[i + 1] >= '0' && operand[i + 1] <= '9')
     return 'i';
   return 'e';
 }
